@@ -185,6 +185,8 @@ def type_reverse(object):
         return base64.standard_b64decode(encoded)
 
 
+# How many times a single call may refresh the authorization before giving up
+MAX_REAUTH_ATTEMPTS = 4
 _async_auth_glock = asyncio.Lock()
 _async_auth_locks = weakref.WeakKeyDictionary()
 _sync_auth_glock = threading.Lock()
@@ -216,17 +218,21 @@ def requires_auth(func):
                     async with lock:
                         pass
 
-            try:
-                return await func(self, *a, **ka)
-            except exceptions.AuthRequired:
-                if not self._async_auth_lock.locked():
-                    async with self._async_auth_lock:
-                        await self.authenticate()
-                else:
-                    async with self._async_auth_lock:
-                        pass
+            # Give up after a few refreshes, a persistent failure must not
+            # turn into an endless authenticate/retry cycle
+            for attempt in range(MAX_REAUTH_ATTEMPTS + 1):
+                try:
+                    return await func(self, *a, **ka)
+                except exceptions.AuthRequired:
+                    if attempt == MAX_REAUTH_ATTEMPTS:
+                        raise
 
-                return await wrapper(self, *a, **ka)
+                    if not self._async_auth_lock.locked():
+                        async with self._async_auth_lock:
+                            await self.authenticate()
+                    else:
+                        async with self._async_auth_lock:
+                            pass
 
     else:
 
@@ -248,19 +254,21 @@ def requires_auth(func):
                     with lock:
                         pass
 
-            try:
-                return func(self, *a, **ka)
-            except exceptions.AuthRequired:
-                if self._auth_lock.acquire(blocking=False):
-                    try:
-                        self.authenticate()
-                    finally:
-                        self._auth_lock.release()
-                else:
-                    with self._auth_lock:
-                        pass
+            for attempt in range(MAX_REAUTH_ATTEMPTS + 1):
+                try:
+                    return func(self, *a, **ka)
+                except exceptions.AuthRequired:
+                    if attempt == MAX_REAUTH_ATTEMPTS:
+                        raise
 
-                return wrapper(self, *a, **ka)
+                    if self._auth_lock.acquire(blocking=False):
+                        try:
+                            self.authenticate()
+                        finally:
+                            self._auth_lock.release()
+                    else:
+                        with self._auth_lock:
+                            pass
 
     wrapper = functools.wraps(func)(wrapper)
     return wrapper
